@@ -1,4 +1,187 @@
-(** Harness glue for C11 (stub: no families yet). *)
-From Coq Require Import List String.
-From KV Require Import Glue.Val.
-Definition c11_run (fam : string) (args : list val) : option string := None.
+(** Harness glue for C11: array::map! / from_fn! with closure-outcome scripts, map_! /
+    from_fn_! at value level, builder histories, collect_const! chains, const-context
+    (compile / does not compile) programs. *)
+From Coq Require Import List ZArith Bool String.
+From KV Require Import Base.Prelude Model.ArrayMacros Model.Ledger Glue.Val Glue.C15.
+Import ListNotations.
+Local Open Scope string_scope.
+
+Definition code_out (c : Z) (v : Z) : ArrayMacros.outcome Z :=
+  match c with
+  | 0 => Value v
+  | 1 => Break
+  | 2 => Continue
+  | 3 => Return
+  | _ => Panic
+  end%Z.
+
+Definition show_slot (o : option Z) : string :=
+  match o with Some v => show_Z v | None => "UNINIT" end.
+
+Definition show_ares (r : ares Z) : string :=
+  match r with
+  | Built l => "B" ++ show_list show_slot l
+  | Panicked => "PANIC"
+  | Returned => "RET"
+  | Diverged => "DIVERGED"
+  | OutOfBounds => "OOB"
+  end.
+
+(** the script has one outcome code per CALL of the closure body; fuel = its length.
+    mode 0: elements are numbers, the k-th call on x yields 3 x + 1 + 100 k;
+    mode 1: ledger elements, the j-th produced element has identity base + j *)
+Definition script_clo (script : list Z) (mode : Z) (base : Z) : nat -> Z -> ArrayMacros.outcome Z :=
+  fun k x =>
+    code_out (nth k script 4%Z)
+      (if (mode =? 1)%Z then base + Z.of_nat (values_before script k)
+       else 3 * x + 1 + 100 * Z.of_nat k)%Z.
+
+(** ids written before the run ended without [Built]: they are leaked (never dropped) *)
+Fixpoint written_before_exit (script : list Z) (next : Z) : list Z :=
+  match script with
+  | [] => []
+  | c :: r =>
+      if (c =? 0)%Z then next :: written_before_exit r (next + 1)%Z
+      else if (c =? 2)%Z then written_before_exit r next
+      else []
+  end.
+
+Definition map_line (input : list Z) (script : list Z) (mode : Z) (base : Z) : string :=
+  let r := array_map_m (length script) (script_clo script mode base) input in
+  if (mode =? 1)%Z then
+    show_fields [("res", show_ares r);
+                 ("ev", match r with
+                        | Built l => show_events_dot false (map (fun o => Hand (match o with Some v => v | None => -1 end)%Z) l)
+                        | _ => "-"
+                        end);
+                 ("leak", match r with
+                          | Built _ => "[]"
+                          | _ => show_list show_Z (written_before_exit script base)
+                          end)]
+  else show_fields [("res", show_ares r)].
+
+Definition from_fn_clo (script : list Z) (mode : Z) : nat -> nat -> ArrayMacros.outcome Z :=
+  fun k i => script_clo script mode 1 k (Z.of_nat i).
+
+(* ------------------------------------------------------------------ collect_const! *)
+
+Definition parse_exit (z : Z) : exit_kind :=
+  match z with 1 => XBreak | 2 => XContinue | _ => XNone end%Z.
+
+Definition parse_closure (l : list val) : closure :=
+  match l with
+  | [e; t; b; p] => mkCl (parse_exit (as_Z e)) (as_Z t) (nat_of b) (as_Z p)
+  | _ => mkCl XNone 0 9 0
+  end.
+
+Definition parse_stage (v : val) : option stage :=
+  match as_list v with
+  | c :: rest =>
+      match as_Z c with
+      | 1 => Some (SFilter (parse_closure rest))
+      | 2 => Some (SMap (parse_closure rest))
+      | 3 => match rest with [n] => Some (STake (nat_of n)) | _ => None end
+      | 4 => match rest with [n] => Some (SSkip (nat_of n)) | _ => None end
+      | 5 => Some (STakeWhile (parse_closure rest))
+      | 6 => Some (SSkipWhile (parse_closure rest) true)
+      | _ => None
+      end%Z
+  | [] => None
+  end.
+
+Fixpoint parse_stages (l : list val) : option (list stage) :=
+  match l with
+  | [] => Some []
+  | v :: r => match parse_stage v, parse_stages r with
+              | Some s, Some ss => Some (s :: ss)
+              | _, _ => None
+              end
+  end.
+
+Definition show_cres (r : cres) : string :=
+  match r with
+  | CBuilt l => show_list show_slot l
+  | CPanicked => "PANIC"
+  end.
+
+(** value-level map_! / from_fn_!: element x maps to 3 x + 1; from_fn_ sees i *)
+Definition show_mres_only (x : mres * list event * list Z) : string :=
+  let '(r, _, _) := x in show_fields [("res", show_mres false r)].
+
+Definition c11_run (fam : string) (args : list val) : option string :=
+  if String.eqb fam "c11.map" then
+    match args with
+    | [n; script; mode] =>
+        let N := nat_of n in
+        (* mode 0: input values 10, 11, ..; mode 1: input ids 1..N, outputs from N+1 *)
+        Some (map_line (if (as_Z mode =? 1)%Z then zseq 1 N else zseq 10 N)
+                       (as_bytes script) (as_Z mode) (Z.of_nat N + 1))
+    | _ => None
+    end
+  else if String.eqb fam "c11.from_fn" then
+    match args with
+    | [n; script; mode] =>
+        let sc := as_bytes script in
+        let r := array_from_fn_m (length sc) (from_fn_clo sc (as_Z mode)) (nat_of n) in
+        if (as_Z mode =? 1)%Z then
+          Some (show_fields
+                  [("res", show_ares r);
+                   ("ev", match r with
+                          | Built l => show_events_dot false (map (fun o => Hand (match o with Some v => v | None => -1 end)%Z) l)
+                          | _ => "-"
+                          end);
+                   ("leak", match r with
+                            | Built _ => "[]"
+                            | _ => show_list show_Z (written_before_exit sc 1)
+                            end)])
+        else Some (show_fields [("res", show_ares r)])
+    | _ => None
+    end
+  else if String.eqb fam "c11.map_" then
+    match args with
+    | [n; script] =>
+        Some (show_mres_only (map_by_val (value_clo (as_bytes script)) (zseq 10 (nat_of n))))
+    | _ => None
+    end
+  else if String.eqb fam "c11.from_fn_" then
+    match args with
+    | [n; script] =>
+        Some (show_mres_only (from_fn_by_val (value_clo (as_bytes script)) (nat_of n)))
+    | _ => None
+    end
+  else if String.eqb fam "c11.builder" then
+    match args with
+    | [k; n; z; ops] =>
+        match parse_ops (as_list ops) with
+        | Some os => Some (hist_run (as_Z k) (nat_of n) (negb (as_Z z =? 0)%Z) os)
+        | None => None
+        end
+    | _ => None
+    end
+  else if String.eqb fam "c11.collect" then
+    match args with
+    | [src; stages] =>
+        match parse_stages (as_list stages) with
+        | Some st => let items := chain_items st (as_bytes src) in
+                     Some (show_cres (collect_const_m items items))
+        | None => None
+        end
+    | _ => None
+    end
+  else if String.eqb fam "c11.const" then
+    (* a const item initialised by one of the macros: which one, N, outcome script.
+       The item compiles iff the model reaches [Built]; then its value is printed. *)
+    match args with
+    | [which; n; script] =>
+        let N := nat_of n in
+        let sc := as_bytes script in
+        let w := as_Z which in
+        let s :=
+          if (w =? 0)%Z then show_ares (array_map_m (length sc) (script_clo sc 0 0) (zseq 10 N))
+          else if (w =? 1)%Z then show_ares (array_from_fn_m (length sc) (from_fn_clo sc 0) N)
+          else if (w =? 2)%Z then (let '(r, _, _) := map_by_val (value_clo sc) (zseq 10 N) in show_mres false r)
+          else (let '(r, _, _) := from_fn_by_val (value_clo sc) N in show_mres false r) in
+        Some (if String.prefix "B" s then s else "COMPILE_ERROR")
+    | _ => None
+    end
+  else None.
